@@ -316,11 +316,76 @@ def ob_layer(report):
                    ['InflightLimitLayer::layer', 'InflightLimit::call'], {}, body)
 
 
+def ob_constructors(report):
+    """the limit that is enforced is the limit that was configured, and every clone of a limiter works on the same table: anemo clones the service stack
+    once per inbound request, so a clone with a table of its own starts every request with full-capacity semaphores"""
+    def body(ob):
+        ex = e2.executor('anemo-tower', [], max_depth=2)
+        lf = struct_fields(SRC, 'InflightLimitLayer')
+        sf = struct_fields(SRC, 'InflightLimit')
+        total = 0
+
+        def field(ret, names, f):
+            return e2.peel(ret.fields[names.index(f)]) if isinstance(ret, Agg) and f in names and names.index(f) < len(ret.fields) else None
+        # clones share table, limit and mode
+        for ty, names in (('InflightLimit', sf), ('InflightLimitLayer', lf)):
+            try:
+                fn = find_method(ex.prog, ty, 'clone', trait='Clone')
+            except NotFound:
+                return ob.done([ex], 'inconclusive', f'{ty} has no Clone impl in the crate', paths=total)
+            res = ex.run(fn, [])
+            total += len(res)
+            for r in res:
+                if r.tag != 'return':
+                    return viol(ob, [ex], f'<{ty} as Clone>::clone can {r.tag}', 'clone-abnormal', path_summary(r), total)
+                for f in ('inflight', 'max_inflight', 'wait_mode'):
+                    v = field(r.ret, names, f)
+                    if v is None or not re.fullmatch(re.escape(f'in_1.*.{names.index(f)}') + r'(\.0|\.\*|\.deref)*', vname(v)):
+                        what = 'a clone works on a semaphore table of its own: the per-peer limit is not enforced across the per-request clones of the service' if f == 'inflight' else f'a clone does not keep `{f}`'
+                        return viol(ob, [ex], f'<{ty} as Clone>::clone: field `{f}` of the clone is {vrepr(v)[:60]}, not the original\'s ({what})', f'clone-{f}', path_summary(r), total)
+        # constructors store the configured limit and mode unchanged
+        for ty, names, meth, nlead in (('InflightLimitLayer', lf, 'new', 0), ('InflightLimit', sf, 'new', 1), ('InflightLimit', lf, 'layer', 0)):
+            if meth not in methods_of(ex.prog, ty):
+                continue
+            fn = find_method(ex.prog, ty, meth)
+            if len(fn.args) != nlead + 2:
+                continue
+            res = ex.run(fn, [])
+            total += len(res)
+            a_max = fn.args[nlead]
+            maxv = z3.BitVec('in' + a_max, 64)
+            for r in res:
+                if r.tag != 'return':
+                    return viol(ob, [ex], f'{ty}::{meth} can {r.tag} on some limit', f'ctor-abnormal:{meth}', path_summary(r), total)
+                v = field(r.ret, names, 'max_inflight')
+                if isinstance(v, z3.ExprRef) and z3.is_bv(v) and z3.is_const(v) and v.decl().kind() == z3.Z3_OP_UNINTERPRETED and str(v) != 'in' + a_max:
+                    return ob.done([ex], 'inconclusive', f'{ty}::{meth}: the stored limit is the result of a call this executor does not model ({str(v)[:60]})', paths=total)
+                if isinstance(v, z3.ExprRef) and z3.is_bv(v):
+                    ex.queries += 1
+                    # domain of the claim: limits tokio's Semaphore accepts (MAX_PERMITS = usize::MAX >> 3; Semaphore::new panics beyond it, here as on the pinned tree)
+                    MAXP = z3.BitVecVal(((1 << 64) - 1) >> 3, 64)
+                    dom = [z3.ULE(maxv, MAXP)] + [x == MAXP for x in e2.z3vars(v) if str(x).startswith('const:') and 'MAX_PERMITS' in str(x)]
+                    q, m, _ = e2.solve(r.pc + dom + [v != maxv])
+                    if q != 'unsat':
+                        cex = m.eval(maxv, model_completion=True).as_long() if m is not None else None
+                        got = m.eval(v, model_completion=True).as_long() if m is not None else None
+                        sample = path_summary(r)
+                        sample['counterexample'] = {'max_inflight': cex, 'stored': got}
+                        return viol(ob, [ex], f'{ty}::{meth}(max_inflight = {cex}) stores {got} as the limit: the configured maximum is not what is enforced', f'ctor-limit:{meth}', sample, total)
+                elif v is None or vname(v) != 'in' + a_max:
+                    return ob.done([ex], 'inconclusive', f'{ty}::{meth}: stored limit {vrepr(v)[:60]} not understood', paths=total)
+        ob.done([ex], 'held', '', {'paths': total}, paths=total)
+    return guarded(report, 'constructors_and_clones', 'InflightLimit(Layer)::{new,layer} store max_inflight (all 2^64 values) unchanged; Clone of the layer and of the service share the table, limit and mode',
+                   ['InflightLimitLayer::new', 'InflightLimit::new', 'InflightLimit::layer', '<InflightLimit as Clone>::clone', '<InflightLimitLayer as Clone>::clone'], {'limit': 'every usize tokio::sync::Semaphore accepts (<= usize::MAX >> 3)'}, body)
+
+
 def check(report, tier, only=None):
     report.trusted += ['tokio::sync::Semaphore: at most `permits` outstanding permits, a dropped permit returns its slot', 'DashMap::entry().or_insert_with: one value per key', 'z3 5.1']
     report.outside += ['interleavings of concurrent requests (the bound follows from the per-call discipline + the semaphore contract; Kani does not handle concurrency)',
                        'cancellation: the permit is a field of the future, so dropping the future drops the permit (Rust drop semantics) - stated, not executed']
-    for n, f in (('permit', ob_call), ('shared_table', ob_layer)):
+    from props import towerglue
+    for n, f in (('permit', ob_call), ('shared_table', ob_layer), ('constructors', ob_constructors),
+                 ('poll_ready', lambda rep: towerglue.ob_poll_ready_transparent(rep, PROP, 'InflightLimit', SRC))):
         if only and not any(s in n for s in only):
             continue
         f(report)
